@@ -123,6 +123,54 @@ def homonym_components(ctx, vh, rng):
     shutil.rmtree(work, ignore_errors=True)
 
 
+def ambiguous_component_imports(ctx, vh, rng):
+    """a component file whose own directory and the directories it imports ALL provide the type its root object names (Pane.qml here, there and there): which one
+    is meant is decided by the order of the imports in that file -- the same in every run, in every process"""
+    import os
+    import shutil
+    work = os.path.join(C.BUILD, "c08amb")
+    shutil.rmtree(work, ignore_errors=True)
+    cases = []
+    roots = ["QWidget", "QMenu", "QPushButton", "QGroupBox", "QAction", "QVBoxLayout"]
+    nlay = 6 if ctx.tier == "thorough" else 3
+    reps = 16 if ctx.tier == "thorough" else 8
+    for k in range(nlay):
+        root = os.path.join(work, "a%d" % k)
+        kinds = rng.sample(roots, 4)
+        dirs = ["base", "other", "third"][:rng.choice([2, 3])]
+        files = {"Pane.qml": "import qmluic.QtWidgets\n%s {\n}\n" % kinds[0]}
+        for d, q in zip(dirs, kinds[1:]):
+            files[os.path.join(d, "Pane.qml")] = "import qmluic.QtWidgets\n%s {\n}\n" % q
+        files["Section.qml"] = "import qmluic.QtWidgets\n" + "".join('import "%s"\n' % d for d in dirs) + "Pane {\n}\n"
+        files["Main.qml"] = "import qmluic.QtWidgets\nQWidget {\n    Section { id: first }\n    QVBoxLayout {\n        Section { id: second }\n        QLabel { text: \"x\" }\n    }\n}\n"
+        for f, t in files.items():
+            os.makedirs(os.path.dirname(os.path.join(root, f)) or root, exist_ok=True)
+            open(os.path.join(root, f), "w").write(t)
+        for _ in range(reps):
+            cases.append(({"root": root, "sources": ["Main.qml"], "dirs": []}, k, files))
+        ctx.dist("ambiguous-component-imports")
+    # one case per process: fresh hash seeds
+    import concurrent.futures
+    with concurrent.futures.ThreadPoolExecutor(max_workers=C.NCPU) as ex:
+        out = [r[0] if r else None for r in ex.map(lambda c: C.harness_run(vh, "project", [c[0]], timeout=300), cases)]
+    seen = {}
+    for (c, k, files), res in zip(cases, out):
+        ctx.count(("ambiguous-imports", k, len(seen.get(k, []))), True)
+        if not isinstance(res, dict) or "docs" not in res:
+            ctx.violation("translation does not terminate normally on a component with several candidates for its root type: %s" % str(res)[:300], {"files": files, "impl_output": str(res)[:600]})
+            continue
+        d = res["docs"][0]
+        got = (d.get("ui"), tuple(sorted((x["msg"], x["kind"], x["start"], x["end"]) for x in d.get("diags", []))))
+        seen.setdefault(k, []).append((got, files))
+    for k, lst in seen.items():
+        distinct = {g for g, _ in lst}
+        if len(distinct) > 1:
+            a, b = list(distinct)[:2]
+            ctx.violation("%d translations of the same sources give %d different results: which Pane.qml the component Section.qml means changes from run to run" % (len(lst), len(distinct)),
+                          {"files": lst[0][1], "sources": ["Main.qml"], "impl_output": [a[0], b[0]], "theorem_or_correspondence": "C08 / repeated runs in fresh processes"})
+    shutil.rmtree(work, ignore_errors=True)
+
+
 def shared_context_documents(ctx, vh, rng, wide, others):
     """documents translated before in the same process, through ONE BuildContext (as the command line does): the same document must give the same form and the
     same diagnostics first in the run, last in the run and alone.  The documents share ids and generated names (o1, srcS, action, label ...), so anything the
@@ -240,6 +288,7 @@ def run(ctx):
     ctx.sample({"qml": wide[0]})
     homonym_components(ctx, vh, rng)
     shared_context_documents(ctx, vh, rng, wide, others)
+    ambiguous_component_imports(ctx, vh, rng)
     ctx.coverage["rule"] = ("wide generated documents (all catalogue properties per object, all font/geometry members, all handlers, attached bindings; half with 15%% ill-typed "
                             "bindings) in the three modes, the repository's example/test documents and mutants in generate mode; each translated %d times, every round in a "
                             "different order, spread over fresh processes; non-trivial = wide document or at least 2 diagnostics" % reps)
